@@ -42,6 +42,18 @@ def numOps (op : String) (a : List String) : Option String :=
   | "num.check", _ => some "ok"
   | "num.mod", ts => some (match printParsed (modEnts ts) with | .ok l => "ok " ++ showSlots l | .error => "panic")
   | "num.modapi", ts => some (match printParsed (modEnts ts) with | .ok l => "ok " ++ showSlots l | .error => "panic")
+  -- global entities with the identifier AS WRITTEN (`K:n` named, `K:q` the empty name `@""`, `K:e<k>` a written `@k`): the parser's verdict and numbering,
+  -- then the print of the parsed module
+  | "num.gsrc", ts =>
+      let src : List SrcSlot := ⟨true, none, true⟩ :: ((ts.map fun t => match (t.splitOn ":").getD 1 "" with
+        | "n" => (⟨true, none, true⟩ : SrcSlot)
+        | "q" => ⟨false, none, true⟩
+        | m => ⟨false, some (m.drop 1).toString.toInt!, true⟩) ++ [⟨true, none, true⟩])
+      some (match indexGlobals src with
+        | .error => "error"
+        | .ok _ => (match printParsed (modEnts (ts.map fun t => (t.splitOn ":").head! ++ ":" ++ (if (t.splitOn ":").getD 1 "" == "n" then "n" else "u"))) with
+                    | .ok l => "ok " ++ showSlots l
+                    | .error => "panic"))
   | "num.apiok", ts => some (match printParsed (modEnts ts) with | .ok _ => "ok" | .error => "FAIL:unclassified")
   | "num.modok", ts => some (match printParsed (modEnts ts) with | .ok _ => "ok" | .error => "FAIL:unclassified")
   | _, _ => none
